@@ -22,13 +22,26 @@ TRUSTED = ['hand-written Gallina mirror of krylov.py (Model/Krylov.v), tied to t
            'contracts of numpy.linalg.norm, scipy.linalg.eigh_tridiagonal (T U = U diag w, U orthogonal), numpy.exp (|exp(it)| = 1 for real t)',
            'numpy/scipy reference computations (eigvalsh, dense expm, re-orthogonalised Krylov basis) in the plugin (stage C search only)']
 PARTIAL = ('proved for the model (Properties/C15.v), all n >= 1, every numiter >= 1 incl. numiter > n and early termination: Hermitian expm_krylov '
-           'preserves the norm for unimodular phases; Ritz vectors orthonormal with Ritz values as Rayleigh quotients; every Ritz value >= every '
+           'preserves the norm for unimodular phases AND (C15_expm_hermitian_energy, linear self-adjoint A, eigh answer with U^T U = I, T U = U diag(w), '
+           '(U U^T) e_0 = e_0) the energy <x|A x> = <v|A v> -- the conserving-solver contract consumed by C08 (C08_tdvp1_conserves_lapack), no invariance of the Krylov space needed; '
+           'Ritz vectors orthonormal with Ritz values as Rayleigh quotients; every Ritz value >= every '
            'lower bound of the Rayleigh quotients of A (so >= smallest eigenvalue); theta_min <v,v> <= <v,Av>; for linear A with A V = V T: '
            'p(A) v = ||v|| V p(T) e_0 for every polynomial p (both branches). '
-           'NOT proved: "equals the exact matrix exponential / the smallest reachable eigenvalue once numiter reaches the Krylov dimension" '
-           '(no matrix exponential or spectral decomposition in the model; A V = V T at breakdown is a hypothesis of the polynomial theorem, '
-           'not derived from the breakdown test); these clauses are only searched numerically against scipy.linalg.expm / '
-           'numpy.linalg.eigvalsh in stage C, for both values of the hermitian flag.')
+           'EXHAUSTION (C15_exhausted_* / C15_expm_exhausted_*, C14_*_exact_breakdown_AV_V?): when the iteration stops on an EXACTLY vanishing '
+           'residual (warning issued and numpy.linalg.norm answered 0 on the last residual, which by the norm contract forces the residual '
+           'vector to be 0; or, more generally, the residual recomputed from the returned state is the zero vector) the relation A V = V T '
+           'is derived for all returned columns (Lanczos and Arnoldi), hence p(A) v = ||v|| V p(T) e_0 for every polynomial with no extra '
+           'hypothesis; every returned Ritz pair is an exact unit eigenpair of A, every Ritz value is an eigenvalue reachable from v, the lowest '
+           'Ritz value is <= every real eigenvalue with an eigenvector not orthogonal to v (so it EQUALS the smallest reachable eigenvalue), and v '
+           'lies in the span of the Ritz vectors; expm_krylov(hermitian=True) returns E v for EVERY linear operator E that multiplies each '
+           'lam-eigenvector of A by dexp(dt lam) -- i.e. "equals exp(dt A) v" relative to that defining property of the matrix exponential on '
+           'eigenvectors (no matrix exponential is constructed in Coq); expm_krylov(hermitian=False) likewise under the analogous contract '
+           'for scipy.linalg.expm on the call issued (expm(dt H) u = dexp(dt lam) u whenever H u = lam u) AND the extra hypothesis that e_0 is a '
+           'combination of eigenvectors of H (diagonalisable case only; Jordan blocks not covered). '
+           'NOT proved: anything for a small but non-zero residual (floating-point breakdown) and the full-dimension case numiter = n without '
+           'breakdown (needs V^H V = I ==> V V^H = I for square V over an ordered field); the existence of exp(dt A) itself and the general '
+           'non-diagonalisable branch. These remain searched numerically against scipy.linalg.expm / numpy.linalg.eigvalsh in stage C, for both '
+           'values of the hermitian flag.')
 ASSUMPTIONS = ['cases with a recorded loop norm in [100 n eps, 1e-6) are excluded from the correspondence (class "ambiguous")']
 
 SPECS = ['generic'] * 10 + ['degenerate'] * 6 + ['scalar', 'zero']
